@@ -41,7 +41,7 @@ def _ground(e, pos, dom, depth=0):
     return e
 
 
-def finite_scope_model(ob, size_vars, bounds=(2, 3, 4), timeout_ms=8000, value_lo=-2):
+def finite_scope_model(ob, size_vars, bounds=(2, 3), timeout_ms=8000, value_lo=-2, extra=()):
     for b in bounds:
         dom = list(range(value_lo, b + 2))
         s = z3.Solver()
@@ -54,6 +54,8 @@ def finite_scope_model(ob, size_vars, bounds=(2, 3, 4), timeout_ms=8000, value_l
             return None, None
         for v in size_vars:
             s.add(v <= b)
+        for c in extra:
+            s.add(c)
         if s.check() == z3.sat:
             return s.model(), b
     return None, None
